@@ -237,6 +237,16 @@ int32_t jls_core_signal_def_align(struct jls_signal_def_s * def) {
 
     samples_per_data = sample_decimate_factor * entries_per_data;
 
+    // block and summary buffers are sized in 32-bit arithmetic: their byte sizes must fit
+    if (((((uint64_t) samples_per_data) * sample_size) / 8) > (UINT32_MAX / 2)) {
+        JLS_LOGW("samples_per_data too big: %" PRIu32, samples_per_data);
+        return JLS_ERROR_PARAMETER_INVALID;
+    }
+    if ((((uint64_t) entries_per_summary) * JLS_SUMMARY_FSR_COUNT * sizeof(double)) > (UINT32_MAX / 2)) {
+        JLS_LOGW("entries_per_summary too big: %" PRIu32, entries_per_summary);
+        return JLS_ERROR_PARAMETER_INVALID;
+    }
+
     if (sample_decimate_factor != def->sample_decimate_factor) {
         JLS_LOGI("sample_decimate_factor adjusted from %" PRIu32 " to %" PRIu32,
                 def->sample_decimate_factor, sample_decimate_factor);
